@@ -22,6 +22,9 @@ THEOREMS = [
     "C09_unambiguous_lookup_coincides", "C09_unambiguous_subscriptions_coincide",
     "C09_rebuild_answers_unambiguous_lookups", "C09_replay_answers_unambiguous_lookups",
     "C09_regsys_step_storage",
+    "C09_trie_invariant", "C09_trie_step_refines", "C09_trie_rebuild_is_replay", "C09_trie_find_leaf_agrees",
+    "C09_trie_walkers_equal_flat", "C09_trie_allRegistrations_exact", "C09_trie_refines_flat",
+    "C09_trie_lockstep_is_brun_without_rebuild",
 ]
 RULE = ("1-2 base-less registries (both flavours) over a generated interface/class world; keys come in "
         "families sharing a required prefix and differing in provided / name / last required; values 1..6 "
@@ -30,10 +33,12 @@ RULE = ("1-2 base-less registries (both flavours) over a generated interface/cla
         "stream); a case is non-trivial when it contains an overwrite "
         "or a twin/identical re-registration or a removal with a surviving sibling or a rebuild; distinct = "
         "distinct (first 14 op kinds, #rebuilds, #live at end) signature")
-TRUSTED_BASE = ["shared registry model Model/Adapter.v + Model/Lookup.v + Model/RegSys.v (nested dictionaries "
-                "abstracted to the finite map they implement; validated by bin/check REG and by this correspondence)",
-                "enumeration order of allRegistrations()/allSubscriptions() is taken from the implementation "
-                "(the theorems hold for every order)"]
+TRUSTED_BASE = ["shared registry model Model/Adapter.v + Model/Lookup.v + Model/RegSys.v (validated by bin/check REG and by "
+                "this correspondence); its flat-map abstraction of the nested dictionaries is PROVED (Model/Trie.v "
+                "refines it: C09_trie_refines_flat, C09_trie_walkers_equal_flat) and Model/Trie.v is compared with the "
+                "implementation's private layout (_adapters, _subscribers, _provided) after every mutation",
+                "the correspondence reads the private attributes _adapters / _subscribers / _provided (layout tie only; "
+                "the Spec oracle uses public API results)"]
 ASSUMPTIONS = ["the specification graph is static during a history",
                "an object's identity determines the object (identity_ok): no two values share an id"]
 
@@ -431,6 +436,19 @@ def _c_order(o):
     return "([%s], [%s])" % ("; ".join(_c_akv(e) for e in o["regs"]), "; ".join(_c_skv(e) for e in o["subs"]))
 
 
+def _c_trie(x):
+    if "v" in x:
+        return "Leaf %s" % RC.c_value(x["v"])
+    if "l" in x:
+        return "Leaf [%s]" % "; ".join(RC.c_value(v) for v in x["l"])
+    return "Node [%s]" % "; ".join("(%d, %s)" % (k, _c_trie(sub)) for k, sub in x["n"])
+
+
+def _c_layout(l):
+    return "([%s], [%s], [%s])" % ("; ".join(_c_trie(t) for t in l["ad"]), "; ".join(_c_trie(t) for t in l["su"]),
+                                   "; ".join("(%d, %d)" % (k, n) for k, n in l["pc"]))
+
+
 def _c_ops(ops, obs):
     return "[" + ";\n    ".join(RC.c_op(op, obs, []) for op in ops) + "]"
 
@@ -441,15 +459,16 @@ def coq_case(case, obs, mode):
         # history whose answers cannot match (both checks fail -> concrete violation)
         if not obs.get("specs"):
             raise C.HarnessError("driver error: " + obs["error"])
-        return "(%s, %s,\n   %s,\n   [[3; 0]], [], (0, Push, ([], []), [], [], []))" % (
+        return "(%s, %s,\n   %s,\n   [[3; 0]], [], [], (0, Push, ([], []), [], [], [], ([], [], [])))" % (
             RC.c_graph(obs), RC.c_ifaces(obs), _c_ops(case["ops"], obs))
     rp = obs["replay"]
     qs = case["replay"]["queries"]
-    return "(%s, %s,\n   %s,\n   %s,\n   [%s],\n   (%d, %s, %s,\n    %s,\n    %s,\n    %s))" % (
+    return "(%s, %s,\n   %s,\n   %s,\n   [%s],\n   [%s],\n   (%d, %s, %s,\n    %s,\n    %s,\n    %s,\n    %s))" % (
         RC.c_graph(obs), RC.c_ifaces(obs), _c_ops(case["ops"], obs), RC.c_answers(obs["answers"]),
         "; ".join(_c_order(o) for o in obs["orders"]),
+        ";\n    ".join(_c_layout(l) for l in obs["layouts"]),
         case["replay"]["reg"], "Push" if rp["flavour"] == "push" else "Verifying", _c_order(rp["listing"]),
-        _c_ops(qs, obs), RC.c_answers(rp["a1"]), RC.c_answers(rp["a2"]))
+        _c_ops(qs, obs), RC.c_answers(rp["a1"]), RC.c_answers(rp["a2"]), _c_layout(rp["layout"]))
 
 
 def classify(case, obs):
@@ -557,8 +576,14 @@ LEVEL_TEXT = ("Machine-checked theorems (Properties/C09.v, closed under the glob
               "register/unregister/subscribe/unsubscribe/rebuild that registered/allRegistrations/allSubscriptions/"
               "subscribed equal the abstract ledger, that rebuild() and a replay of the listings in ANY enumeration "
               "order preserve both maps with exact _provided counts, and that every unambiguous lookup/subscriptions "
-              "query is answered identically; the model is run against the C and Python implementations on generated "
-              "histories on every run and the implementation's raw answers are judged by the ledger inside Coq.")
-LEVEL_NOTE = ("Trusted: Coq kernel/vm_compute; the hand-written shared registry model (nested dictionaries abstracted to "
-              "the finite map they implement, so container pruning is exercised only by the correspondence); the harness. "
-              "Unambiguous = at most one applicable provided interface carries an entry under each required-key tuple.")
+              "query is answered identically; a second model of the storage as the code has it (nested dictionaries "
+              "with padding, pruning loop, stripping, _allKeys enumeration, walkers with their truthiness tests and "
+              "guards) is proved to refine the flat one for all histories.  Both models are run against the C and "
+              "Python implementations on generated histories on every run: public answers, the private nested layout "
+              "after every mutation, and the exact enumeration order; the implementation's raw answers are judged by "
+              "the ledger inside Coq.")
+LEVEL_NOTE = ("Trusted: Coq kernel/vm_compute; the hand-written registry models (tied to the code by the correspondence, "
+              "incl. layout) and the harness.  Partial: that the nested enumeration is a permutation of the flat "
+              "listing (needed to identify the lockstep flat run with the plain one THROUGH rebuild()) is checked per "
+              "run, not proved.  Unambiguous = at most one applicable provided interface carries an entry under each "
+              "required-key tuple.")
